@@ -300,6 +300,9 @@ fn analyze_insertion_in_route_leg(
     };
     let start_time = route_ctx.route().tour.start().map_or(Timestamp::default(), |act| act.schedule.departure);
 
+    // NOTE: processing of the next legs can be stopped only when it is requested for each place and time window
+    let mut is_all_stopped = true;
+
     // iterate over places and times to find the next best insertion point
     for (place_idx, place) in single.places.iter().enumerate() {
         target.place.idx = place_idx;
@@ -314,16 +317,13 @@ fn analyze_insertion_in_route_leg(
             let move_ctx = MoveContext::activity(solution_ctx, route_ctx, &activity_ctx);
 
             if let Some(violation) = eval_ctx.goal.evaluate(&move_ctx) {
-                let is_stopped = violation.stopped;
+                is_all_stopped = is_all_stopped && violation.stopped;
                 single_ctx.violation = Some(violation);
-                if is_stopped {
-                    // should stop processing this leg and next ones
-                    return ControlFlow::Break(single_ctx);
-                } else {
-                    // can continue within the next place
-                    continue;
-                }
+                // can continue within the next time window or place
+                continue;
             }
+
+            is_all_stopped = false;
 
             let costs = eval_ctx.goal.estimate(&move_ctx) + &route_costs;
             let other_costs = single_ctx.cost.as_ref().unwrap_or(InsertionCost::max_value());
@@ -341,7 +341,12 @@ fn analyze_insertion_in_route_leg(
         }
     }
 
-    ControlFlow::Continue(single_ctx)
+    if is_all_stopped {
+        // should stop processing this leg and next ones
+        ControlFlow::Break(single_ctx)
+    } else {
+        ControlFlow::Continue(single_ctx)
+    }
 }
 
 fn get_insertion_index(route_ctx: &RouteContext, position: InsertionPosition) -> Option<usize> {
